@@ -187,10 +187,8 @@ def o5_inplace(check: Check, repo: Repo) -> None:
         sig = "optimize() rewrites a Rule object that other parsers may share"
         check.oblige("O5", f"{OPT}::Optimizer.optimize", f"`{target} = ...`: {why}" if ok else sig, ok,
                      finding=Finding("O5", f"{OPT}::Optimizer.optimize", sig, f"`{ast.unparse(store)}`: {why}", {}))
-    # built-ins are skipped before any rewrite
-    src_ok = any(isinstance(st, ast.If) and ast.unparse(st.test) == "isinstance(rule, BuiltInRule)" and st.body and isinstance(st.body[-1], ast.Continue) for lp in ast.walk(fn) if isinstance(lp, ast.For) for st in lp.body)
-    check.oblige("O5", f"{OPT}::Optimizer.optimize", "built-in rule objects are skipped" if src_ok else "the shared built-in rule objects are not excluded from rewriting", src_ok,
-                 finding=Finding("O5", f"{OPT}::Optimizer.optimize", "the shared built-in rule objects are not excluded from rewriting", "Optimizer.optimize has no `if isinstance(rule, BuiltInRule): continue` at the head of its per-rule loop", {}))
+    # (that built-ins are skipped is no longer a premise: a rewritten built-in would be stored as a copy in the
+    # parser's own table like any other rule)
 
 
 def o7_unroll(check: Check, repo: Repo) -> None:
